@@ -61,32 +61,56 @@ CoreBodies == { <<>>, <<D>>, <<D, S>>, <<S>>, <<Ch("ok"), La("ok"), E>>, <<Ch("o
 
 HasTE(h) == \E i \in 1..Len(h) : h[i][1] = "TE"
 
-\* ---- first messages
-Firsts ==
-       { Msg("1.1", me, "ok", "crlf", h, b) : me \in {"GET", "POST"}, h \in HdrLists, b \in BasicBodies }
-  \cup { Msg("1.1", me, "ok", "crlf", h, b) : me \in {"GET", "POST"},
-                                              h \in {x \in HdrLists : HasTE(x)}, b \in ChunkBodies }
-  \cup { Msg(v, me, ho, le, h, b) : v \in {"1.1", "1.0"}, me \in {"GET", "HEAD", "POST"},
-                                    ho \in {"ok", "none", "dup"}, le \in {"crlf", "lf", "lfend"},
-                                    h \in CoreHdrLists, b \in CoreBodies }
+\* ---- first messages, addressed by index (no large sets of deep records are ever built)
+HdrSeq == SetToSeq(HdrLists)                        TEHdrSeq == SetToSeq({x \in HdrLists : HasTE(x)})
+BasicSeq == SetToSeq(BasicBodies)                   ChunkSeq == SetToSeq(ChunkBodies)
+CoreHdrSeq == SetToSeq(CoreHdrLists)                CoreBodySeq == SetToSeq(CoreBodies)
+MethAB == <<"GET", "POST">>
+VerC == <<"1.1", "1.0">>  MethC == <<"GET", "HEAD", "POST">>  HostC == <<"ok", "none", "dup">>
+LeC == <<"crlf", "lf", "lfend">>
+
+\* mixed-radix digit d (1-based) of k (0-based) for radices r (a sequence)
+RECURSIVE Below(_, _)
+Below(r, d) == IF d = 0 THEN 1 ELSE r[d] * Below(r, d - 1)
+Digit(k, r, d) == ((k \div Below(r, d - 1)) % r[d]) + 1
+
+RA == <<Len(BasicSeq), Len(HdrSeq), 2>>
+RB == <<Len(ChunkSeq), Len(TEHdrSeq), 2>>
+RC == <<Len(CoreBodySeq), Len(CoreHdrSeq), 3, 3, 3, 2>>
+NA == Below(RA, 3)  NB == Below(RB, 3)  NC == Below(RC, 6)
+NF == NA + NB + NC
+
+First(k1) ==
+  IF k1 <= NA THEN LET k == k1 - 1 IN
+    Msg("1.1", MethAB[Digit(k, RA, 3)], "ok", "crlf", HdrSeq[Digit(k, RA, 2)], BasicSeq[Digit(k, RA, 1)])
+  ELSE IF k1 <= NA + NB THEN LET k == k1 - NA - 1 IN
+    Msg("1.1", MethAB[Digit(k, RB, 3)], "ok", "crlf", TEHdrSeq[Digit(k, RB, 2)], ChunkSeq[Digit(k, RB, 1)])
+  ELSE LET k == k1 - NA - NB - 1 IN
+    Msg(VerC[Digit(k, RC, 6)], MethC[Digit(k, RC, 5)], HostC[Digit(k, RC, 4)], LeC[Digit(k, RC, 3)],
+        CoreHdrSeq[Digit(k, RC, 2)], CoreBodySeq[Digit(k, RC, 1)])
 
 CanaryGet  == Msg("1.1", "GET", "ok", "crlf", <<>>, <<>>)
 CanaryPost == Msg("1.1", "POST", "ok", "crlf", <<It("CL", "exact", "crlf")>>, <<D>>)
 CanaryLf   == Msg("1.1", "GET", "ok", "lf", <<>>, <<>>)
-Seconds == @@SECONDS@@
+Seconds == @@SECONDS@@                    \* a sequence of second messages
+NS == Len(Seconds)
 
-\* extra pipelines: pairs/triples of first messages chosen (by the runner, seeded) as indices
-FirstSeq == SetToSeq(Firsts)
-NF == Len(FirstSeq)
-Pick(k) == FirstSeq[(k % NF) + 1]
-Extra == { [i \in 1..Len(t) |-> Pick(t[i])] \o <<CanaryGet>> : t \in @@EXTRA@@ }
+\* extra pipelines: tuples of first-message indices chosen (seeded) by the runner
+ExtraSeq == @@EXTRA@@                     \* a sequence of tuples of naturals
+NX == Len(ExtraSeq)
 
-AllPipelines == { <<a, b, CanaryGet>> : a \in Firsts, b \in Seconds } \cup Extra
+\* pipeline ids: 1..NF*NS = <<First, Second, CanaryGet>>; then NX extra ones
+NP == NF * NS + NX
+PLOf(id) ==
+  IF id <= NF * NS
+  THEN <<First(((id - 1) \div NS) + 1), Seconds[((id - 1) % NS) + 1], CanaryGet>>
+  ELSE LET t == ExtraSeq[id - NF * NS] IN [i \in 1..Len(t) |-> First((t[i] % NF) + 1)] \o <<CanaryGet>>
+AllIds == 1..NP
 
-Vec(p) == [p |-> p, allowed |-> Allowed(p), full |-> Len(RFCSeq(p))]
+Vec(id) == LET p == PLOf(id) IN [id |-> id, p |-> p, allowed |-> Allowed(p), full |-> Len(RFCSeq(p))]
 
-ASSUME PrintT(<<"FIRSTS", NF, "PIPELINES", Cardinality(AllPipelines)>>)
-ASSUME ndJsonSerialize("vectors.ndjson", SetToSeq({ Vec(p) : p \in AllPipelines }))
+ASSUME PrintT(<<"FIRSTS", NF, "PIPELINES", NP>>)
+ASSUME ndJsonSerialize("vectors.ndjson", [id \in 1..NP |-> Vec(id)])
 
 Inv == PrefixInv /\ AllowedInv /\ RespShape /\ RefSane
 =============================================================================
